@@ -12,7 +12,7 @@ into `Capella/Gen/Ns.lean` on every run together with the kernel-checked facts t
 
 Mirrored **as coded**, including what only shows on trees Capella never writes: the text and tail of a
 replaced root are not copied, comments *after* the root come back in reverse order (`addnext` in a
-forward loop), a type prefix that is neither a known plugin nor declared is skipped with a log line.
+forward loop) and comments around the root lose their tails, a type prefix that is neither a known plugin nor declared is skipped with a log line.
 
 Two situations are *not* modelled, they are reported as `NsErr.childDeclares` / `NsErr.needsFixup`
 (never silently treated as success): when the root has to be replaced and (1) an element below the root
@@ -298,9 +298,14 @@ text and tail are not copied -/
 def replaceRoot (n : List (Str × Str)) : Elem → Elem
   | .mk tag _ attrs _ _ kids => .mk tag (sortKV n) attrs none none kids
 
+/-- a comment re-attached next to the new root with `addprevious` / `addnext`: the new root is the root of
+its own document (`etree.Element`), and lxml discards the tail of a node that becomes a sibling of a
+document root -/
+def dropTail (c : Comment) : Comment := ⟨c.text, none⟩
+
 /-- `ModelFile.update_namespaces(viewpoints)` on the document of a fragment.  Comments in front of the
 root keep their order (`addprevious` over the reversed backwards iteration), comments behind it end
-up reversed (`addnext` in a forward loop). -/
+up reversed (`addnext` in a forward loop); both lose their tails. -/
 def updateNs (t : List Plugin) (vps : List (Str × Str)) (d : Doc) : Except NsErr Doc :=
   match newNsmap t vps d.root with
   | .error e => .error e
@@ -308,7 +313,7 @@ def updateNs (t : List Plugin) (vps : List (Str × Str)) (d : Doc) : Except NsEr
     if dictEq d.root.nsdecls n then .ok d
     else if !noDeclsL d.root.kids then .error .childDeclares
     else if !urisCovered ((sortKV n).map (·.2)) d.root then .error .needsFixup
-    else .ok ⟨d.pre, replaceRoot n d.root, d.post.reverse⟩
+    else .ok ⟨d.pre.map dropTail, replaceRoot n d.root, d.post.reverse.map dropTail⟩
 
 /-- specification side: the prefix of every type occurring in the tree is declared on the root -/
 def typePrefixesDeclared (t : List Plugin) (d : Doc) : Bool :=
